@@ -5,7 +5,8 @@
 From Verif Require Import Base.Prelude Base.StrOrd Base.Graph Model.MapSpec Model.MapSpecSpec
   Model.PrepareSteps Model.Validate Model.ValidateSpec.
 From Verif Require Model.Pipe.
-From Verif Require Import Corr.Run_C12 Proofs.PrepareFacts Proofs.ValidateFacts Proofs.ValidateDecide.
+From Verif Require Import Model.Mutate.
+From Verif Require Import Corr.Run_C12 Proofs.PrepareFacts Proofs.ValidateFacts Proofs.ValidateDecide Proofs.MutateFacts.
 
 (* ---------- construction ---------- *)
 (* what construction accepts is free of every construction-time fault class of the property *)
@@ -89,6 +90,65 @@ Theorem C12_model_meets_spec_order : forall cleanup,
   spec_ok (CPrepOrder cleanup) (run (CPrepOrder cleanup)) = true.
 Proof. exact model_meets_spec_order. Qed.
 Print Assumptions C12_model_meets_spec_order.
+
+(* ---------- mutate-then-use: ill-formed states created AFTER construction ---------- *)
+(* ONE call of the member-level API (pipeline[name].update_defaults / update_bound / update_renames) or of the
+   pipeline-level API (update_defaults / update_renames / add / replace), then the next run / map.  The graph
+   (re)built at the start of run / map re-checks unique outputs, consistent defaults and acyclicity - the only
+   pipeline-level validation a member-level change ever meets. *)
+Theorem C12_mutate_then_run_sound : forall fs mu fs',
+  apply_mutation fs mu = Ok fs' -> use_run fs' = Ok tt ->
+  fs' = mutate_desc fs mu /\ ~ F_dup_output fs' /\ ~ F_defaults fs' /\ ~ F_cycle fs'.
+Proof. exact mutate_then_run_sound. Qed.
+Print Assumptions C12_mutate_then_run_sound.
+
+Theorem C12_mutate_then_run_complete_per_fault : forall fs mu,
+  let fs' := mutate_desc fs mu in
+  (F_dup_output fs' \/ F_defaults fs' \/ F_cycle fs') ->
+  (exists e, apply_mutation fs mu = Err e) \/ (exists e, use_run fs' = Err e).
+Proof. exact mutate_then_run_complete_per_fault. Qed.
+Print Assumptions C12_mutate_then_run_complete_per_fault.
+
+Theorem C12_mutate_then_map_complete_per_fault : forall q fs',
+  (F_dup_output fs' \/ F_defaults fs' \/ F_cycle fs') -> exists e, validate_map (with_funcs q fs') = Err e.
+Proof. exact mutate_then_map_complete_per_fault. Qed.
+Print Assumptions C12_mutate_then_map_complete_per_fault.
+
+(* a member-level mutation re-validates the member: no duplicate output, no output named like a parameter *)
+Theorem C12_member_mutation_revalidates_member : forall fs j f fs' mu,
+  (exists d, mu = MDefaults j d) \/ (exists b ow, mu = MBound j b ow) \/ (exists ren, mu = MRename j ren) ->
+  nth_error fs j = Some f -> apply_mutation fs mu = Ok fs' ->
+  exists f', nth_error fs' j = Some f' /\ validate_func f' = Ok tt
+             /\ NoDup (routs f') /\ (forall o, In o (routs f') -> ~ In o (rparams f')).
+Proof. exact member_mutation_revalidates_member. Qed.
+Print Assumptions C12_member_mutation_revalidates_member.
+
+(* the scenario of the seeded regression C12-m1: f(a, b=1) -> c, g(c, b=1) -> y; pipeline["y"].update_defaults(b=5)
+   is accepted by the member, and rejected by the graph checks of the next run and of the next map (with an existing
+   run folder and cleanup=False: no call, no effect); likewise an output renamed onto another output and a
+   parameter renamed into a cycle *)
+Module ExM.
+  Definition F (n o : string) (ps : list string) : raw_func :=
+    {| rname := s n; routs := [s o]; rparams := map s ps; rsigd := [(s "b", s "1")]; rdefs := [];
+       rbound := []; rspec := None; rint := [] |}.
+  Definition fs : list raw_func := [F "f" "c" ["a"; "b"]%string; F "g" "y" ["c"; "b"]%string].
+  Definition mu : mutation := MDefaults 1 [(s "b", s "5")].
+  Definition q : mreq :=
+    {| q_funcs := fs; q_inputs := [(s "a", IScalar (s "1"))]; q_internal := []; q_storage := StStr (s "dict");
+       q_registry := [s "dict"]; q_parallel := false; q_executor := false; q_cleanup := false;
+       q_prev := Some {| pv_inputs := [(s "a", IScalar (s "1"))]; pv_internal := []; pv_funcs := None |} |}.
+End ExM.
+Example C12_example_mutate_then_use :
+  validate_construct ExM.fs = Ok tt
+  /\ apply_mutation ExM.fs ExM.mu = Ok (mutate_desc ExM.fs ExM.mu)
+  /\ use_run (mutate_desc ExM.fs ExM.mu) = Err ValueError
+  /\ map_model (fun _ => [s "would-run"]) (with_funcs ExM.q (mutate_desc ExM.fs ExM.mu)) = (Err ValueError, [], [])
+  /\ (exists fs', apply_mutation ExM.fs (MRename 0 [(s "c", s "y")]) = Ok fs' /\ use_run fs' = Err ValueError)
+  /\ (exists fs', apply_mutation ExM.fs (MRename 0 [(s "a", s "y")]) = Ok fs' /\ use_run fs' = Err OtherError)
+  /\ apply_mutation ExM.fs (PRename [(s "c", s "y")]) = Err ValueError.
+Proof.
+  repeat split; try (vm_compute; reflexivity); eexists; split; vm_compute; reflexivity.
+Qed.
 
 (* ---------- pipeline(output, **kwargs): the property is FALSE of the code (known findings) ---------- *)
 (* Full statement (not provable):
